@@ -49,7 +49,7 @@ ROUTES = ["StopgapMotl(df).write_out", "StopgapMotl(StopgapMotl).write_out", "Mo
 
 def plan(tier):
     if tier == "quick":
-        return dict(n_cases=len(CLASSES) * 4 * 7, shards=1, classes=CLASSES, timeout_s=600,
+        return dict(n_cases=len(CLASSES) * 4 * 7, shards=2, classes=CLASSES, timeout_s=600,
                     min_evals={"sg_export": 800, "sg_import": 800, "write_out_file": 400, "star_fields": 400,
                                "star_halfset_idx": 400, "update_coord": 300, "star_reload": 700, "inmem_roundtrip": 350,
                                "converters": 150})
@@ -233,7 +233,7 @@ def gen(ctx, i, cls):
     ncls = len(CLASSES)
     cfg = (i // ncls) % 4
     reset, upd = bool(cfg & 1), bool(cfg & 2)
-    n = int(rng.choice([2, 3, 5, 17, 64, 150, 300])) if rng.random() < 0.5 else int(rng.integers(2, 301))
+    n = int(rng.choice([2, 3, 5, 9, 17, 33, 64, 150])) if rng.random() < 0.6 else int(rng.integers(2, 301))
     if cls == "n1":
         n = 1
     elif cls == "n300":
